@@ -256,7 +256,15 @@ func checkC12(c *Ctx, w *World) {
 			return ld != nil && pl.lf.HeldAt(ld)["gcpClientStream.Mutex"] == 2
 		}
 	}
-	rAtoms := []atomDef{eqAtom("noErr", rField("gcpClientStream.initStreamErr"), isNil), eqAtom("noStream", rField("gcpClientStream.ClientStream"), isNil)}
+	rAtoms := []atomDef{eqAtom("noErr", rField("gcpClientStream.initStreamErr"), isNil), eqAtom("noStream", rField("gcpClientStream.ClientStream"), isNil),
+		eqAtom("ctxAlive", func(v ssa.Value) bool {
+			call, ok := stripConv(v).(*ssa.Call)
+			if !ok || !call.Call.IsInvoke() || call.Call.Method.Name() != "Err" || shortType(call.Call.Value.Type()) != "context.Context" {
+				return false
+			}
+			f, base, isL := loadedField(call.Call.Value)
+			return isL && f == "gcpClientStream.ctx" && isParamValue(base, r0)
+		}, isNil)}
 	rcs := newCondSpace(recv, recOf(rAtoms...), atomNames(rAtoms...)...)
 	var waits []*ssa.Call
 	eachInstr(recv, func(in ssa.Instruction) {
@@ -272,7 +280,7 @@ func checkC12(c *Ctx, w *World) {
 	okRecv := true
 	nDel := 0
 	for _, r := range returnsOf(recv) {
-		res := r.Results[0]
+		res := stripConv(oneOrigin(r.Results[0])) // through the result cell when the function has defers
 		if call, isC := res.(*ssa.Call); isC && call.Call.IsInvoke() && call.Call.Method.Name() == "RecvMsg" {
 			nDel++
 			f, base, ok := loadedField(call.Call.Value)
@@ -285,6 +293,15 @@ func checkC12(c *Ctx, w *World) {
 			}
 			continue
 		}
+		// or: the call's context ended while waiting — the context's own error (as a status), only when ctx.Err() != nil
+		if ctxErrCall := contextErrOf(res); ctxErrCall != nil {
+			f, base, ok := loadedField(ctxErrCall.Call.Value)
+			imp, _ := rcs.Implies(rcs.Reach(r), rcs.Not(rcs.Atom("ctxAlive")))
+			if !ok || f != "gcpClientStream.ctx" || !isParamValue(base, r0) || !imp {
+				okRecv = false
+			}
+			continue
+		}
 		// otherwise: the creation error, non-nil
 		if !originsAll(res, func(o Origin) bool { return isLoadOf(o.Val, "gcpClientStream.initStreamErr") }) {
 			okRecv = false
@@ -293,7 +310,7 @@ func checkC12(c *Ctx, w *World) {
 			okRecv = false
 		}
 	}
-	c.check(okRecv && nDel == 1, "C12.cond", "RecvMsg: after the wait", p.pos(recv.Pos()), "returns the creation error if there is one, else delegates RecvMsg(m) with the same message to the existing stream", "RecvMsg does not return the creation error / delegate to the created stream exactly")
+	c.check(okRecv && nDel == 1, "C12.cond", "RecvMsg: after the wait", p.pos(recv.Pos()), "returns the creation error if there is one (or the context's error if the call's context ended while waiting), else delegates RecvMsg(m) with the same message to the existing stream", "RecvMsg does not return the creation error / delegate to the created stream exactly")
 
 	// ---- C12.ctx-exit
 	for i, l := range loopsOf(recv) {
@@ -398,4 +415,22 @@ func isParamValue(v ssa.Value, prm *ssa.Parameter) bool {
 		return true
 	}
 	return originsAll(v, func(o Origin) bool { return o.Val == ssa.Value(prm) })
+}
+
+// contextErrOf: v is ctx.Err() or status.FromContextError(ctx.Err()).Err(); returns the ctx.Err() call.
+func contextErrOf(v ssa.Value) *ssa.Call {
+	v = stripConv(oneOrigin(v))
+	call, ok := v.(*ssa.Call)
+	if !ok {
+		return nil
+	}
+	if call.Call.IsInvoke() && call.Call.Method.Name() == "Err" && shortType(call.Call.Value.Type()) == "context.Context" {
+		return call
+	}
+	if c2, isS := staticCallNamed(v, "status.(*Status).Err"); isS {
+		if c3, isF := staticCallNamed(stripConv(c2.Call.Args[0]), "status.FromContextError"); isF {
+			return contextErrOf(c3.Call.Args[0])
+		}
+	}
+	return nil
 }
